@@ -234,4 +234,20 @@ PROPS = {
             det("splits", "^TestC02Splits$"),
         ],
     },
+    "C18": {
+        "level": "fault_enumeration",
+        "level_text": "for every generated stream and reader configuration the reader is made to fail at every byte offset; for every generated Muxer "
+                      "history the writer is made to fail at every Write call index, permanently and once; the oracle is errors.Is on the returned "
+                      "error, the prefix relation with the fault-free output, and the bytes the faulty writer accepted",
+        "level_note": "fault positions are exhaustive per generated case (every third offset for 1-byte reads over streams longer than 12 packets); "
+                      "with a bufio.Reader the error surfaces when bufio hands it over, so only 'an error wrapping the cause before any ErrNoMorePackets' is asserted there",
+        "technique": "exhaustive fault-position enumeration (reader offsets, writer call indices) over rapid-generated streams and histories",
+        "rule": "rapid-generated streams x reader configurations x all fault offsets; rapid-generated histories x all Write call indices x {permanent, one-shot}; "
+                "non-trivial = every case; distinct by stream bytes + configuration / history",
+        "assumptions": [],
+        "units": [
+            rap("reader", "^TestC18Reader$", 40, 400, 6, 16),
+            rap("writer", "^TestC18Writer$", 120, 1200, 4, 16),
+        ],
+    },
 }
